@@ -113,7 +113,7 @@ def run_shard(spec, rec):
             cfg.indices = [0, 1, -1, -2, 2, -3, -4, -5, -7]
             gen = G.QGen(R, cfg)
             q = gen.query(root="$")
-            doc = D.doc_for(R, q, maxdepth=R.choice([3, 4, 5]), maxwidth=4)
+            doc = D.doc_for(R, q, maxdepth=R.choice([3, 4, 5]), maxwidth=4, feat=rec.features)
             text = G.render(q, R, feat=rec.features)
             if R.random() < 0.03:
                 # long arrays: indices with several digits (100, 1005, ...) in locations and normalized paths
